@@ -56,7 +56,9 @@ def twin_job(job):
         tb = env.table(1, 1, 1)
         nr, nc = tb.num_rows, tb.num_cols
         prng = random.Random(seed + 1)
-        for pr in probes_for(nr, nc, prng, full):
+        # (a table of the bounded histories has a handful of rows; one that a changed library grew to thousands is already reported
+        # through its dimensions - probing every position of it would only make the trace enormous)
+        for pr in (probes_for(nr, nc, prng, full) if nr <= 60 and nc <= 60 else []):
             op = dict(pr, h=1, s=1, t=1)
             o, res = env.apply(op)
             e = dict(op)
@@ -150,6 +152,7 @@ def limit_checks(ctx):
     from numbers_parser import RGB, Border, Document
     from numbers_parser.constants import MAX_COL_COUNT, MAX_ROW_COUNT
     prof = wb.Profile(random.Random(1), lim_r=MAX_ROW_COUNT, lim_c=MAX_COL_COUNT, tokens=("a", "b"))
+    prof.allow_huge = True          # growth to the documented limits is what these traces are about
     prof.values.update({"a": 7.5, "b": -12})
     prof.rev = {wb.canon(v): k for k, v in prof.values.items()}
     ops = []
@@ -178,6 +181,14 @@ def limit_checks(ctx):
             grows_rows = 1 <= op["r"] <= MAX_ROW_COUNT and op["r"] > 1000
             if grows_rows and big:
                 continue
+            tb = env.table(1, 1, 1)
+            if op["c"] > 1 and tb.num_rows > 1000:
+                # the column positions are tried on a table that is one row high: after the row positions the table may have
+                # 10^6 rows (or, under a changed library, some other large number), and 1000 columns of that do not fit
+                traces.append(trace)
+                env = wb.Env(ctx.scratch, prof, 1, tag="lim%dc" % a1)
+                env.newdoc(1, 1, 1)
+                trace = {"init": env.project(), "ev": [], "profile": prof.describe()}
             out, res = env.apply(op)
             e = dict(op)
             e["out"] = out.split(":")[0] if out.startswith("Other") else out
